@@ -5,5 +5,6 @@ cd "$(dirname "${BASH_SOURCE[0]}")"
 /venv/bin/python -c "import hypothesis" 2>/dev/null || /venv/bin/pip install -q --no-index --find-links /opt/veriftools/wheels hypothesis
 mkdir -p build .deps evidence
 if [ -f csrc/interpose.c ]; then gcc -O1 -shared -fPIC -o build/libinterpose.so csrc/interpose.c -ldl -lpthread; fi
+if [ -f csrc/guardalloc.c ]; then gcc -O1 -shared -fPIC -o build/libguardalloc.so csrc/guardalloc.c; fi
 /venv/bin/python -c "import atheris" 2>/dev/null || /venv/bin/pip install -q --no-index --find-links /opt/veriftools/wheels --target .deps atheris 2>/dev/null || echo "atheris not installed (optional)"
 echo setup ok
